@@ -2001,6 +2001,11 @@ func (p *Program) globalInit(g *ssa.Global) *Term {
 			}
 		}
 	}
+	if len(stores) == 0 && initFn != nil {
+		if t := p.globalArrayInit(g, initFn); t != nil {
+			return t
+		}
+	}
 	if len(stores) != 1 || stores[0].Parent() != initFn {
 		if os.Getenv("AGECHECK_DEBUG_GLOBAL") != "" {
 			fmt.Fprintf(os.Stderr, "globalInit %s: %d stores; init=%v blocks=%d\n", g.Name(), len(stores), initFn != nil, func() int {
@@ -2126,4 +2131,50 @@ func (p *Program) inModuleType(t types.Type) bool {
 	}
 	pp := n.Obj().Pkg().Path()
 	return pp == modPath || strings.HasPrefix(pp, modPath+"/")
+}
+
+// globalArrayInit: a package-level array (var generator = [...]uint32{..}) filled element by
+// element by the package initialiser, each index once with a constant, and only read elsewhere:
+// the list of its elements, like the slice literal it replaces.
+func (p *Program) globalArrayInit(g *ssa.Global, initFn *ssa.Function) *Term {
+	arr, ok := g.Type().(*types.Pointer).Elem().Underlying().(*types.Array)
+	if !ok {
+		return nil
+	}
+	vals := make([]*Term, arr.Len())
+	for _, u := range p.globalUses(g) {
+		switch x := u.(type) {
+		case *ssa.DebugRef:
+		case *ssa.UnOp: // whole-array load (range over a copy)
+		case *ssa.IndexAddr:
+			if x.Referrers() == nil {
+				continue
+			}
+			for _, rr := range *x.Referrers() {
+				switch y := rr.(type) {
+				case *ssa.UnOp, *ssa.DebugRef:
+				case *ssa.Store:
+					if y.Addr != ssa.Value(x) || y.Parent() != initFn {
+						return nil
+					}
+					i, isK := constInt(x.Index)
+					k, isC := y.Val.(*ssa.Const)
+					if !isK || !isC || i < 0 || i >= arr.Len() || vals[i] != nil {
+						return nil
+					}
+					vals[i] = mk("Const", constString(k), k)
+				default:
+					return nil
+				}
+			}
+		default:
+			return nil
+		}
+	}
+	for _, v := range vals {
+		if v == nil {
+			return nil
+		}
+	}
+	return mk("List", "", g, vals...)
 }
